@@ -51,6 +51,9 @@ pub enum AOp {
     /// for slot a and then sleeps in a nested block_on for slot b; a wake for a that arrives during
     /// that sleep must still lead to another poll
     JoinNested(usize, usize),
+    /// like JoinNested, but the second wait blocks in a synchronous primitive (Mutex + Condvar): the
+    /// wake for a arrives while the task is *blocked*, not sleeping
+    JoinSync(usize, usize),
 }
 
 #[derive(Clone, Debug)]
@@ -66,6 +69,8 @@ pub struct AWorld {
     flags: Vec<Slot<bool>>,
     wakers: Vec<Slot<Option<Waker>>>,
     counter: shuttle::sync::atomic::AtomicUsize,
+    /// per slot: a synchronous gate opened by the same Wake op
+    gates: Vec<(shuttle::sync::Mutex<bool>, shuttle::sync::Condvar)>,
 }
 
 /// Waker wrapper: every wake of a task, whoever issues it (user code, JoinHandle completion,
@@ -178,6 +183,41 @@ impl Future for JoinNested {
     }
 }
 
+struct JoinSync {
+    w: Arc<AWorld>,
+    sa: usize,
+    sb: usize,
+    a_done: bool,
+    b_done: bool,
+}
+impl Future for JoinSync {
+    type Output = ();
+    fn poll(mut self: Pin<&mut Self>, cx: &mut Context<'_>) -> Poll<()> {
+        if !self.a_done {
+            if *self.w.flags[self.sa].get() {
+                self.a_done = true;
+            } else {
+                *self.w.wakers[self.sa].get() = Some(cx.waker().clone());
+            }
+            body_event(A_INNER_POLL, self.sa as i64, self.a_done as i64);
+        }
+        if !self.b_done {
+            let (m, cv) = &self.w.gates[self.sb];
+            let mut g = m.lock().unwrap();
+            while !*g {
+                g = cv.wait(g).unwrap();
+            }
+            drop(g);
+            self.b_done = true;
+        }
+        if self.a_done {
+            Poll::Ready(())
+        } else {
+            Poll::Pending
+        }
+    }
+}
+
 struct SelfWake(bool);
 impl Future for SelfWake {
     type Output = ();
@@ -194,6 +234,11 @@ impl Future for SelfWake {
 }
 
 fn do_wake(w: &AWorld, slot: usize) {
+    {
+        let (m, cv) = &w.gates[slot];
+        *m.lock().unwrap() = true;
+        cv.notify_all();
+    }
     *w.flags[slot].get() = true;
     if let Some(wk) = w.wakers[slot].get().take() {
         wk.wake();
@@ -268,6 +313,7 @@ fn run_atask(w: Arc<AWorld>, t: usize) -> Pin<Box<dyn Future<Output = i64> + Sen
                     }
                 }
                 AOp::JoinNested(sa, sb) => JoinNested { w: w.clone(), sa, sb, a_done: false, b_done: false }.await,
+                AOp::JoinSync(sa, sb) => JoinSync { w: w.clone(), sa, sb, a_done: false, b_done: false }.await,
                 AOp::NestedBlockOn(s) => {
                     // a synchronous block_on inside a task: suspends this task while pending
                     let w2 = w.clone();
@@ -290,6 +336,7 @@ fn body(prog: AProg) {
         flags: (0..prog.slots).map(|_| Slot::new(false)).collect(),
         wakers: (0..prog.slots).map(|_| Slot::new(None)).collect(),
         counter: shuttle::sync::atomic::AtomicUsize::new(0),
+        gates: (0..prog.slots).map(|_| (shuttle::sync::Mutex::new(false), shuttle::sync::Condvar::new())).collect(),
         prog,
     });
     let v = sfuture::block_on(Logged { uid: 0, inner: Box::pin(run_atask(w.clone(), 0)), _cap: Captures(0) });
@@ -359,7 +406,7 @@ pub fn gen_prog(rng: &mut Rng, max_tasks: usize) -> AProg {
             let idx: Vec<usize> = pends.iter().enumerate().filter(|(_, p)| matches!(p, AOp::Pend(_))).map(|(i, _)| i).collect();
             if idx.len() >= 2 && rng.chance(1, 2) {
                 let (AOp::Pend(sa), AOp::Pend(sb)) = (pends[idx[0]].clone(), pends[idx[1]].clone()) else { unreachable!() };
-                pends[idx[0]] = AOp::JoinNested(sa, sb);
+                pends[idx[0]] = if rng.chance(1, 2) { AOp::JoinNested(sa, sb) } else { AOp::JoinSync(sa, sb) };
                 pends.remove(idx[1]);
             }
         }
@@ -400,6 +447,16 @@ pub fn gen_prog(rng: &mut Rng, max_tasks: usize) -> AProg {
 /// Terminating programs around a nested block_on inside a poll (wake for the outer pend arrives while
 /// the task sleeps in the nested block_on, from the same or from different tasks, in either order).
 fn nested_progs() -> Vec<AProg> {
+    let mut v = nested_progs_base();
+    // the same shapes with the second wait blocking in a synchronous primitive
+    for p in nested_progs_base() {
+        let tasks = p.tasks.iter().map(|t| t.iter().map(|o| if let AOp::JoinNested(a, b) = o { AOp::JoinSync(*a, *b) } else { o.clone() }).collect()).collect();
+        v.push(AProg { tasks, slots: p.slots, must_deadlock: false });
+    }
+    v
+}
+
+fn nested_progs_base() -> Vec<AProg> {
     vec![
         AProg { tasks: vec![vec![AOp::Spawn(1), AOp::Wake(0), AOp::Wake(1), AOp::Await(1)], vec![AOp::JoinNested(0, 1)]], slots: 2, must_deadlock: false },
         AProg { tasks: vec![vec![AOp::Spawn(1), AOp::Wake(1), AOp::Wake(0), AOp::Await(1)], vec![AOp::JoinNested(0, 1)]], slots: 2, must_deadlock: false },
